@@ -86,10 +86,10 @@ def cells(tier: str) -> dict:
     # depend on how many scenarios are declared
     add("alap[2,none]", "alap", 2, {}, emax=8 * H)
     add("alap[4,none]", "alap", 4, {}, emax=8 * H, emin=7 * H + 1800)
+    add("chain[2,s2:a,narrow]", "chain", 2, {"a": ("s2", "e0s2")}, emax=H)
+    add("chain[3,s2:a,narrow]", "chain", 3, {"a": ("s2", "e0s2")}, emax=H)
+    add("limits[2,s2:b,narrow]", "limits", 2, {"b": ("s2", "e1s2")}, emax=3 * H, emin=2 * H)
     if tier != "quick":
-        add("chain[2,s2:a,narrow]", "chain", 2, {"a": ("s2", "e0s2")}, emax=H)
-        add("chain[3,s2:a,narrow]", "chain", 3, {"a": ("s2", "e0s2")}, emax=H)
-        add("limits[2,s2:b,narrow]", "limits", 2, {"b": ("s2", "e1s2")}, emax=3 * H, emin=2 * H)
         add("chain[4,s3:b]", "chain", 4, {"b": ("s3", "e1s3")})
         add("alap[3,s2:late]", "alap", 3, {"late": ("s2", "e1s2")}, emax=8 * H)
     return out
